@@ -232,7 +232,9 @@ def check_C13(tier):
         binary = os.path.join(sc, "pure.test")
         build_test("pure", binary, race=False)
         env = dict(RATE_N=28 if tier == "quick" else 44, RATE_BIG_N=110 if tier == "quick" else 900)
-        record(binary, "TestRecordRate", sc, env)
+        rc_rec, out_rec = record(binary, "TestRecordRate", sc, env)
+        if "RECORDED rate_big=" not in out_rec or rc_rec != 0:   # a recorder that died half-way must not pass for a short recording
+            raise Inconclusive("rate recorder did not finish\n" + out_rec[-3000:])
         calls = os.path.join(sc, "rate_calls.ndjson")
         res, viol, drift = tlc_calls(sc, "PureRate", "n", v, ("C13",))
         for inv, idx in viol[:5]:
